@@ -321,16 +321,21 @@ def scaling_worker(arg):
     ev = []
     wall = []
     old = sys.getrecursionlimit()
-    sys.setrecursionlimit(100000)
     try:
         for k in (n, 2 * n, 4 * n):
             data = fam(k)
             t = time.time()
 
+            box = []
+
             def run():
-                impl.parse_outcome(data, step_factor=1000)  # (cpu guard of 8 s applies)
+                box.append(impl.parse_outcome(data, step_factor=1000))
 
             ev.append(count_lines(run))
+            o = box[0]
+            # deep nesting and long inputs are inputs like any other: same oracle (default recursion limit)
+            for b, d in check_shape(data, o):
+                col.fail("size-family|%s|%s" % (name, b), {"family": name, "n": n}, dict(d, size=len(data), k=k))
             wall.append(round(time.time() - t, 4))
     finally:
         sys.setrecursionlimit(old)
